@@ -33,6 +33,9 @@ var props = map[string]struct {
 	"C16":    {"model_checking", h.C16},
 	"C17":    {"model_checking", h.C17},
 	"C31":    {"model_checking", h.C31},
+	"C24":    {"exploration", h.C24},
+	"C25":    {"exploration", h.C25},
+	"C29":    {"exploration", h.C29},
 	"C30":    {"exploration", h.C30},
 }
 
